@@ -1016,7 +1016,7 @@ def gen_config(rng, info):
     def nworkers():
         if not multi:
             return 1
-        return rng.choice([1, 1, 2, 2, 3, 3, 4])
+        return rng.choice([1, 2, 2, 3, 3, 4])
     can_pack = backend in ('file', 'keepalive')
     steps = []
     shape = rng.random()
